@@ -101,6 +101,19 @@ CHECKS = {
                   "validated by TLC (Outcome.tla)",
         category='model_checking',
         ref="DESIGN.md §5 C07"),
+    'C08': dict(
+        text="RoundTrip.tla composes the encoder model, the reference parser and the renderer model over representatives of "
+             "the character classes defined by the shape of the table entry; TLC checks that the composition is the "
+             "identity for every string of representatives (ligature pairs and odd paragraph runs excluded), each of the "
+             "four brace-protection schemes and the default and strict whitespace policies; real encoder output and "
+             "latex_to_text must agree with the model; then every character of the frozen invertible alphabet (1314 "
+             "characters, data/c08_alphabet.json) is round-tripped alone and before/after a member of every class under "
+             "every scheme and both policies, exactly.",
+        note="Per-character table fidelity is decided by the instantiated replay, not by TLC (see DESIGN.md §7). One known "
+             "finding: whitespace runs with >= 2 newlines are normalised to a paragraph break.",
+        technique="TLA+ composition encoder x parser x renderer (RoundTrip.tla), TLC; exhaustive instantiation over the "
+                  "frozen alphabet",
+        ref="DESIGN.md §5 C08"),
     'C09': dict(
         text="A TLA+ model makes the state that survives between parse calls explicit (cached standard-argument parser "
              "instances and their lazily created inner parsers, the verbatim nesting counter, frozen databases) and TLC "
